@@ -101,6 +101,55 @@ impl Loop {
 //@end
 }
 
+// ---------- handle_task: how a run's task outcome becomes the `outcome` of the back-off arms above ----------
+// The daemon spawns each run as a task and awaits it through handle_task; "a failed run is retried" covers every way the
+// task can end badly: an Err value, a panic inside the run (tokio turns it into a JoinError), a cancelled task.  All of them
+// must come back as Err - a panic re-raised here would unwind through Loop::start and end the daemon instead of retrying.
+pub mod task_outcome {
+use vstd::prelude::*;
+pub struct AnyErr;
+pub enum JoinErrorKind { Panic, Cancelled }
+pub struct JoinError { pub kind: JoinErrorKind }
+pub struct PanicPayload;
+impl JoinError {
+    #[verifier::external_body] pub fn is_panic(&self) -> (r: bool) ensures r == (self.kind is Panic) { unimplemented!() }
+    #[verifier::external_body] pub fn is_cancelled(&self) -> (r: bool) ensures r == (self.kind is Cancelled) { unimplemented!() }
+    #[verifier::external_body] pub fn into_panic(self) -> (r: PanicPayload) requires self.kind is Panic { unimplemented!() }
+}
+// std::panic::resume_unwind / panic_any: continue unwinding with a task's panic payload - never returns
+#[verifier::external_body]
+pub fn resume_unwind_<T>(payload: PanicPayload) -> (r: T)
+    requires false                                                                                       // OBL:C19.handle_task.task_panic_is_not_re_raised_in_the_daemon
+    ensures false   // diverges: nothing after the call is reachable
+{ unimplemented!() }
+// how the spawned run ended: its value, or the JoinError tokio reports for a panicked / cancelled task
+pub struct JoinHandle<T> { pub out: Result<T, JoinError> }
+impl<T> JoinHandle<T> {
+    pub fn await_(self) -> (r: Result<T, JoinError>) ensures r == self.out { self.out }
+}
+pub trait Ctx<T> { fn context(self, msg: &str) -> (r: Result<T, AnyErr>); }
+impl<T> Ctx<T> for Result<T, AnyErr> {
+    #[verifier::external_body]
+    fn context(self, msg: &str) -> (r: Result<T, AnyErr>) ensures match self { Ok(v) => r == Ok::<T, AnyErr>(v), Err(_) => r is Err } { unimplemented!() }
+}
+impl<T> Ctx<T> for Result<T, JoinError> {
+    #[verifier::external_body]
+    fn context(self, msg: &str) -> (r: Result<T, AnyErr>) ensures match self { Ok(v) => r == Ok::<T, AnyErr>(v), Err(_) => r is Err } { unimplemented!() }
+}
+//@extract id=handle_task_outcome file=junos-agent/src/task.rs fn=handle_task rules=R1,R2,R3 awaitcall=1
+//@+ optsub=/std::panic::resume_unwind(=>resume_unwind_(;;panic::resume_unwind(=>resume_unwind_(/
+//@sig pub fn handle_task<T>(handle: JoinHandle<Result<T, AnyErr>>) -> (res: Result<T, AnyErr>)
+//@contract
+        // total: returns for every way the task can end (no precondition; a reachable panic fails the proof) ...
+        ensures
+            // ... a run counts as successful only if its task ran to completion and returned Ok
+            res matches Ok(v) ==> handle.out == Ok::<Result<T, AnyErr>, JoinError>(Ok(v)),                 // OBL:C19.handle_task.success_only_for_a_completed_ok_run
+            // ... and a task that returned Err, panicked or was cancelled is a failed run (which the loop retries)
+            !(handle.out matches Ok(Ok(_))) ==> res is Err,                                              // OBL:C19.handle_task.failed_panicked_or_cancelled_run_is_err
+            handle.out matches Ok(Ok(v)) ==> res == Ok::<T, AnyErr>(v),                                    // OBL:C19.handle_task.ok_run_is_ok
+//@end
+} // mod task_outcome
+
 // ---------- cli.rs: `--frequency 0` selects one-shot mode, any other value is the daemon's period ----------
 pub struct NonZeroU64 { pub n: u64 }
 pub struct TryFromIntError;
